@@ -202,7 +202,16 @@ Proof.
         assert (Hend' : x_end x = pos_after (x_start x) pre) by (apply Hend; discriminate).
         destruct (prefixb _ _) eqn:Ecl.
         -- destruct (N.eqb r cGT) eqn:Egt.
-           ++ cbn [rinv]; unfold pinv. rewrite Hpre, firstn_pre_app.
+           ++ rewrite Hpre, firstn_pre_app.
+              destruct pre as [|pr0 pre'].
+              { (* empty text before the close tag: only the close-tag token, starting at x_start *)
+                cbn [rinv]; unfold pinv. cbn [pos_after fold_left] in Hend'.
+                assert (Hv : vals toks ++ ((t0 :: tb) ++ [r]) = c ++ [r]).
+                { rewrite <- Hb, Hpre. reflexivity. }
+                split; [|rewrite vals_cons; cbn [t_value]; exact Hv].
+                apply (chain_emit _ _ (c ++ [r])); cbn [t_start t_end t_value];
+                  [exact Hch|rewrite Hend'; exact Hs|exact Hp1|exact Hv]. }
+              cbn [rinv]; unfold pinv. set (pre := pr0 :: pre') in *.
               set (t1 := mkTok KText pre (x_start x) (x_end x) [] []).
               set (t2 := mkTok KTag ((t0 :: tb) ++ [r]) (x_end x) p1 (cSLASH :: x_rawname x) []).
               assert (Hc1 : chain P0 (rev (t1 :: toks))).
@@ -237,16 +246,18 @@ Lemma dispatch_inv toks m r p0 p1 c :
   rinv (dispatch toks m r p0 p1) c r.
 Proof.
   intros [Hch H] Hp0 Hp1. destruct m as [|x|g|e]; cbn [Scan.dispatch].
-  - destruct (N.eqb r cLT) eqn:Elt.
-    + apply N.eqb_eq in Elt; subst r. cbn [rinv]; unfold pinv. unfold new_tag; tag_cbn.
-      split; [exact Hch|]. split; [rewrite H; reflexivity|]. split; [rewrite H; exact Hp0|].
-      unfold tag_ok; tag_cbn; auto.
-    + destruct (new_text_buf to_lower text_tags toks p0) as [E1 E2].
+  - assert (Htext : rinv (text_step toks (new_text toks p0) r p0 p1) c r).
+    { destruct (new_text_buf to_lower text_tags toks p0) as [E1 E2].
       apply text_step_inv; try assumption.
       * rewrite E1, app_nil_r; exact H.
       * rewrite new_text_start, H. exact Hp0.
       * intros _. exists []. rewrite E1, E2. split; [reflexivity|].
-        intros Hne; contradiction Hne; reflexivity.
+        intros Hne; contradiction Hne; reflexivity. }
+    destruct (raw_tag_of_last _ _ _) as [n|]; [exact Htext|].
+    destruct (N.eqb r cLT) eqn:Elt; [|exact Htext].
+    apply N.eqb_eq in Elt; subst r. cbn [rinv]; unfold pinv. unfold new_tag; tag_cbn.
+    split; [exact Hch|]. split; [rewrite H; reflexivity|]. split; [rewrite H; exact Hp0|].
+    unfold tag_ok; tag_cbn; auto.
   - destruct H as (H1 & H2 & H3). apply text_step_inv; assumption.
   - destruct H as (H1 & H2 & H3). apply tag_step_inv; assumption.
   - exact (conj Hch I).
